@@ -2,6 +2,7 @@ package main
 
 import (
 	"go/ast"
+	"strings"
 )
 
 func init() { generators = append(generators, genTar) }
@@ -93,6 +94,56 @@ func genTar() {
 	m := load(mf)
 	l.defStrList("tarMemfsSys", stmts(m, "memfs.go", "memFileInfo.Sys"))
 	l.defStrList("tarMemfsSize", stmts(m, "memfs.go", "memFileInfo.Size"))
+
+	// the context checks of the callers of the walk: for every function between the walk and the entry points, the
+	// statements before the one that contains the walk which look at the context (normally none) and the statements from
+	// that one to the end (a `for … range` statement is cut down to its header)
+	ctxSplit := func(file *File, short, fn, marker string) (before, from []string) {
+		fd := file.fn(fn)
+		if fd == nil || fd.Body == nil {
+			problem("%s: func %s not found", short, fn)
+			return nil, nil
+		}
+		at := -1
+		for i, st := range fd.Body.List {
+			if strings.Contains(file.src(st), marker) {
+				at = i
+				break
+			}
+		}
+		if at < 0 {
+			problem("%s: %s: no statement with %q", short, fn, marker)
+			return nil, nil
+		}
+		for _, st := range fd.Body.List[:at] {
+			if x := file.src(st); strings.Contains(x, "ctx.Err()") || strings.Contains(x, "ctx.Done()") {
+				before = append(before, x)
+			}
+		}
+		for i, st := range fd.Body.List[at:] {
+			if rs, ok := st.(*ast.RangeStmt); ok && i == 0 {
+				from = append(from, "for "+file.src(rs.Key)+", "+file.src(rs.Value)+" := range "+file.src(rs.X))
+				continue
+			}
+			from = append(from, file.src(st))
+		}
+		return before, from
+	}
+	bf := load("pkg/build/build.go")
+	lf := load("pkg/build/layers.go")
+	for _, x := range []struct {
+		file                    *File
+		short, fn, marker, name string
+	}{
+		{bf, "build.go", "Context.ImageLayoutToLayer", "writeTar(", "tarLayer"},
+		{bf, "build.go", "Context.BuildLayer", "bc.ImageLayoutToLayer(", "tarBuildLayer"},
+		{lf, "layers.go", "splitLayers", "range walkFS(", "tarSplit"},
+		{lf, "layers.go", "Context.buildLayers", "splitLayers(", "tarBuildLayers"},
+	} {
+		before, from := ctxSplit(x.file, x.short, x.fn, x.marker)
+		l.defStrList(x.name+"BeforeWalk", before)
+		l.defStrList(x.name+"FromWalk", from)
+	}
 	l.write()
 
 	hashFn("pkg/build/build.go", "Context.ImageLayoutToLayer")
@@ -100,6 +151,8 @@ func genTar() {
 	hashFn(tb, "writeTar")
 	hashFn(tb, "walkFS")
 	hashFn(bi, "newLayerWriter")
+	hashFn("pkg/build/layers.go", "splitLayers")
+	hashFn("pkg/build/layers.go", "Context.buildLayers")
 	hashFn("pkg/passwd/passwd.go", "ReadUserFile")
 	hashFn("pkg/passwd/passwd.go", "UserFile.Load")
 	hashFn("pkg/passwd/group.go", "ReadGroupFile")
